@@ -52,6 +52,14 @@ def run(ck: Check):
     cases, meta = [], {}
     for mi, mset in enumerate(MSETS):
         worlds = c07.worlds_for(ck, nworlds, 100 + 20 * mi)
+        for wi, w in enumerate(worlds):
+            if wi % 2 == 0:
+                # leak energy that matters: a leaky component and finite bandwidth, so that the tile shape with the least
+                # dynamic energy is not always the one with the least total energy
+                mems = sorted(w["level"], key=lambda c: w["level"][c])
+                w["cost"][mems[-1]]["leak"] = 16 if wi % 4 == 0 else 64
+                for a in w["cost"][mems[0]]["tput"]:
+                    w["cost"][mems[0]]["tput"][a] = [1, 1]
         if mi % 2:
             for w in worlds:
                 for c in w["size"]:
